@@ -72,5 +72,6 @@ let () =
              let obs = List.map (fun g -> List.map chunk (split_or_empty ';' g)) (split_or_empty '|' groups) in
              if !bad <> "" then "ERR " ^ !bad else
              let fi = Model.observe_file ft obs in
-             tok_of_bytes (Model.layout_bytes fi) ^ " " ^ tok_of_bool (Model.file_ok fi))
+             let (lb, ok) = Model.layout_checked fi in
+             tok_of_bytes lb ^ " " ^ tok_of_bool ok)
     | _ -> failwith "args")
